@@ -4,6 +4,6 @@ CONSTANTS
   CaseKinds <- BothKinds
   Depth = 1
   RandDepth = 1
-  TyNames <- C14Names
-INVARIANTS TypeOK CtLaws CtHashSeparates CtAnnounceIsHeaderPlusBool
+  TyNames <- C14AllNames
+INVARIANTS TypeOK CtLaws CtHashSeparates CtAnnounceIsHeaderPlusBool CtConsensusEmbeds CtGossipTags CtPrimWidths
 CHECK_DEADLOCK FALSE
